@@ -327,6 +327,9 @@ func run(repo, dir string, seed uint64, nprog, nvalues int, keep bool) int {
 			}
 			for k := 0; k < nv; k++ {
 				v := valgen.Gen(r, u.Schema, sidx, 1+r.Intn(5), vcfg)
+				if n := dropZeroSizeKeys(u.Schema, &idlgen.RType{Kind: idlgen.RStruct, Sidx: sidx}, v); n > 0 {
+					out.Stats["avoided.map-with-zero-size-struct-key"] += n
+				}
 				out.Count(fmt.Sprintf("val.depth.%d", v.Depth()))
 				genOps(r, u, de, sidx, key, v, vcfg, ls, out)
 			}
@@ -529,6 +532,9 @@ func genOps(r *vl.Rng, u *batch.UnitInfo, de bool, sidx int, key string, v *valu
 	}
 	// (3) an independent second value
 	v2 := valgen.Gen(r, s, sidx, 1+r.Intn(3), vcfg)
+	if n := dropZeroSizeKeys(s, rt, v2); n > 0 {
+		out.Stats["avoided.map-with-zero-size-struct-key"] += n
+	}
 	ls.pair(u, de, sidx, key, "independent", v, v2)
 	// (4) nil receivers / nil arguments, identity, shallow copy
 	n := values.Nil()
